@@ -229,6 +229,9 @@ SAME_CASES = [   # (chain of a Message ADT_A01, how the elements of the chain ar
     (["pid", "pid_3"], [("add_segment", "PID"), ("add_field", "PID_3")], "1CCCXSYSZCMR"),
     (["pid", "pid_13"], [("add_segment", "PID"), ("add_field", "PID_13")], "5CPCH"),
     (["evn", "evn_2"], [("add_segment", "EVN"), ("add_field", "EVN_2")], "2020"),
+    (["zin", "zin_2"], [("add_segment", "ZIN"), ("add_field", "ZIN_2")], "x"),        # a Z segment that does not exist yet
+    (["zap", "zap_3"], [("add_segment", "ZAP"), ("add_field", "ZAP_3")], "ab"),
+    (["adt_a01_procedure", "zpr", "zpr_2"], [("add_group", "ADT_A01_PROCEDURE"), ("add_segment", "ZPR"), ("add_field", "ZPR_2")], "w"),
     (["adt_a01_insurance", "in1", "in1_2"], [("add_group", "ADT_A01_INSURANCE"), ("add_segment", "IN1"), ("add_field", "IN1_2")], "PCQ"),
 ]
 
